@@ -914,6 +914,41 @@ func vfC11RSAKeyUnder13(t *testing.T, res *vfResult, signer string) {
 	synctest.Wait()
 }
 
+// vfC11RequireEMSOnResumption: a session made without extended master secret (both sides had it disabled) sits in both
+// stores; then one side's policy becomes Require. "A side that requires extended master secret never completes without
+// it": the abbreviated handshake would run on the old master secret, which was derived without it (RFC 7627 Section 5.3
+// prescribes a full handshake or an abort).
+func vfC11RequireEMSOnResumption(t *testing.T, res *vfResult, tightened string) {
+	res.Eval(1)
+	cS, sS := vfNewMemStore("c"), vfNewMemStore("s")
+	first := vfC14Cfg("ecdsa", "same")
+	first.EMSc, first.EMSs = DisableExtendedMasterSecret, DisableExtendedMasterSecret
+	c1 := vfC14Connect(first, cS, sS, nil, false)
+	id := "require-ems-on-resumption/" + tightened
+	if !c1.CompletedBoth || len(vfC14ClientEntry(cS).ID) == 0 {
+		res.Count("require_ems_resumption_setup_failed", 1)
+
+		return
+	}
+	second := first
+	second.EMSc, second.EMSs = RequestExtendedMasterSecret, RequestExtendedMasterSecret
+	if tightened == "client" {
+		second.EMSc = RequireExtendedMasterSecret
+	} else {
+		second.EMSs = RequireExtendedMasterSecret
+	}
+	c2 := vfC14Connect(second, cS, sS, nil, false)
+	res.NonTrivial(id)
+	res.Count("require_ems_resumption_cases", 1)
+	abbreviated := c2.HasSH && !c2.HasSHD && !c2.HasCert
+	res.Seen("require_ems_resumption_outcomes", fmt.Sprintf("%s: completed=%v abbreviated=%v", id, c2.CompletedBoth, abbreviated))
+	if c2.CompletedBoth && abbreviated {
+		res.Violate("C11:require-ems-completed-on-non-ems-session:"+tightened,
+			fmt.Sprintf("%s: the %s requires extended master secret, yet both sides completed an abbreviated handshake on session %x, whose master secret was derived without it", id, tightened, c2.AnsweredSID),
+			map[string]any{"require_ems": tightened})
+	}
+}
+
 func TestVF_C11(t *testing.T) {
 	vfGetPKI()
 	res := vfNewResult("C11", "generated pairs of option sets (version range x suite lists x curves x signature schemes x key type/PSK x EMS policy x "+
@@ -973,6 +1008,7 @@ func TestVF_C11(t *testing.T) {
 		vfC11ClientCertVerifyScheme(t, res, ccvs[i].ver, ccvs[i].schemes, ccvs[i].tag)
 	})
 	vfBubbles(t, 2, func(t *testing.T, i int) { vfC11RSAKeyUnder13(t, res, []string{"server", "client"}[i]) })
+	vfBubbles(t, 2, func(t *testing.T, i int) { vfC11RequireEMSOnResumption(t, res, []string{"client", "server"}[i]) })
 	res.Floor("negotiations_checked", int64(nc/10))
 	res.Floor("refused_incompatible", int64(nc/20))
 	res.Finish(t)
